@@ -138,7 +138,7 @@ func execHandlers(next interp.ExecHandlerFunc) interp.ExecHandlerFunc {
 func catCopy(ctx context.Context, w io.Writer, r io.Reader) error {
 	buf := make([]byte, 4096)
 	for {
-		if !vsched.WaitReadable(r) {
+		if !vsched.WaitReadable(ctx, r) {
 			return ctx.Err()
 		}
 		n, err := r.Read(buf)
@@ -215,7 +215,10 @@ func execOnce(cs *Case, prefix []int) *execResult {
 			return
 		}
 		if setup != nil {
-			if err := r.Run(ctx, setup); err != nil {
+			// the first Run gets a context of its own, which is never cancelled
+			sctx, scancel := context.WithCancel(context.Background())
+			defer scancel()
+			if err := r.Run(sctx, setup); err != nil {
 				runErr = fmt.Errorf("setup: %w", err)
 				return
 			}
